@@ -38,6 +38,7 @@ type Clause struct {
 	File string
 	// assigns targets
 	Targets []*Formula
+	Auto    bool // generated candidate (Houdini), not written by hand
 }
 
 type SpecFn struct {
@@ -65,6 +66,7 @@ type Contract struct {
 	Line     int
 	File     string
 	Lemmas   []*Clause
+	Uses     []string // tags whose callee postconditions this function's proof relies on
 }
 
 type ContractSet struct {
@@ -76,7 +78,7 @@ type ContractSet struct {
 	Devirt map[string]string   // interface method -> concrete function key
 }
 
-var reKeyword = regexp.MustCompile(`^(func|pred|spec|axiom|devirt|requires|ensures(\[[^\]]*\])?|assigns|loop|inline|trusted|pure|lemma)\b`)
+var reKeyword = regexp.MustCompile(`^(func|pred|spec|axiom|devirt|uses|requires|ensures(\[[^\]]*\])?|assigns|loop|inline|trusted|pure|lemma)\b`)
 
 func loadContracts(pkgDirs map[string]string) *ContractSet {
 	cs := &ContractSet{ByFunc: map[string]*Contract{}, Specs: map[string]*SpecFn{}, Axioms: map[string][]*Clause{}, Devirt: map[string]string{}}
@@ -251,6 +253,12 @@ func (cs *ContractSet) parseFile(pkgPath, file, src string) {
 				cur.Unroll[n] = k
 			default:
 				cs.errf(file, it.line, "unknown loop clause %q", f[1])
+			}
+		case "uses":
+			if cur != nil {
+				for _, x := range strings.Split(rest, ",") {
+					cur.Uses = append(cur.Uses, strings.TrimSpace(x))
+				}
 			}
 		case "inline":
 			if cur != nil {
